@@ -58,9 +58,9 @@ def attributeTo (o : Obs) : Option String :=
      && (o.neutral == "ok" || o.neutral == "err") then some "C29-F1"
   else if o.outcome == "abort" && o.kind == "stack-overflow" && chainOps up ≥ 2000 then some "C29-F2"
   else if o.outcome == "timeout" && o.phase == "parse" && maxDepth o.sql ≥ 41 && (contains up "CAST(" || contains up "ARRAY[") then some "C29-F3"
-  else if o.outcome == "panic" && (contains o.kind "physical::operators::filter::" || contains o.kind "physical::operators::hash_agg")
-     && o.detail.startsWith "attempt to " && contains o.detail "with overflow"
-     && ((contains up "FROM_UNIXTIME(" && contains o.detail "multiply") || (contains up "SUM(" && contains o.detail "add")) then some "C29-F8"
+  else if o.outcome == "panic" && (contains o.kind "physical::operators::filter::" || contains o.kind "hash_agg.rs" || contains o.kind "physical::morsel_agg::AccumulatorState")
+     && contains o.detail "attempt to " && contains o.detail "with overflow"
+     && ((contains up "FROM_UNIXTIME(" && contains o.detail "multiply") || ((contains up "SUM(" || contains up "AVG(") && contains o.detail "add")) then some "C29-F8"
   else if o.outcome == "panic" && domainPairs.any (fun (f, m) => contains up (f ++ "(") && contains o.detail m) then some "C29-F9"
   else if ((o.outcome == "abort" && o.kind == "alloc-failure") || (o.outcome == "timeout" && o.phase == "execute")
            || (o.outcome == "panic" && contains o.detail "capacity overflow"))
